@@ -23,8 +23,8 @@ func (r Result) String() string {
 	return [...]string{"unsat", "sat", "unknown"}[r]
 }
 
-// Solver is one long-lived solver process speaking SMT-LIB2 over pipes.
-type Solver struct {
+// proc is one long-lived solver process speaking SMT-LIB2 over pipes.
+type proc struct {
 	Name    string
 	cmd     *exec.Cmd
 	in      io.WriteCloser
@@ -41,7 +41,7 @@ type Solver struct {
 }
 
 // SolverSpec: kind is "z3-new", "z3" or "cvc5".
-func NewSolver(kind string, timeoutMs int) (*Solver, error) {
+func newProc(kind string, timeoutMs int) (*proc, error) {
 	var cmd *exec.Cmd
 	switch kind {
 	case "z3-new":
@@ -66,7 +66,7 @@ func NewSolver(kind string, timeoutMs int) (*Solver, error) {
 	if err := cmd.Start(); err != nil {
 		return nil, err
 	}
-	s := &Solver{Name: kind, cmd: cmd, in: in, out: bufio.NewReaderSize(out, 1<<20), pr: NewPrinter(), kind: kind, timeout: timeoutMs}
+	s := &proc{Name: kind, cmd: cmd, in: in, out: bufio.NewReaderSize(out, 1<<20), pr: NewPrinter(), kind: kind, timeout: timeoutMs}
 	if p := os.Getenv("GOSMT_SMTLOG"); p != "" {
 		f, _ := os.OpenFile(fmt.Sprintf("%s.%s.%d.smt2", p, kind, cmd.Process.Pid), os.O_CREATE|os.O_WRONLY|os.O_TRUNC, 0644)
 		s.Log = f
@@ -80,7 +80,7 @@ func NewSolver(kind string, timeoutMs int) (*Solver, error) {
 	return s, nil
 }
 
-func (s *Solver) Close() {
+func (s *proc) Close() {
 	if s == nil || s.dead {
 		return
 	}
@@ -95,18 +95,18 @@ func (s *Solver) Close() {
 	}
 }
 
-func (s *Solver) send(txt string) {
+func (s *proc) send(txt string) {
 	if s.Log != nil {
 		io.WriteString(s.Log, txt)
 	}
 	io.WriteString(s.in, txt)
 }
 
-func (s *Solver) Push() { s.send("(push 1)\n") }
-func (s *Solver) Pop()  { s.send("(pop 1)\n") }
+func (s *proc) Push() { s.send("(push 1)\n") }
+func (s *proc) Pop()  { s.send("(pop 1)\n") }
 
 // Declare makes sure all definitions t needs have been sent and returns its reference.
-func (s *Solver) Declare(t *Term) string {
+func (s *proc) Declare(t *Term) string {
 	var sb strings.Builder
 	r := s.pr.Define(t, &sb)
 	if sb.Len() > 0 {
@@ -115,13 +115,13 @@ func (s *Solver) Declare(t *Term) string {
 	return r
 }
 
-func (s *Solver) Assert(t *Term) {
+func (s *proc) Assert(t *Term) {
 	r := s.Declare(t)
 	s.send("(assert " + r + ")\n")
 }
 
 // AssertRange asserts the declared bounds of variable v at the current level.
-func (s *Solver) AssertRange(v *Term) {
+func (s *proc) AssertRange(v *Term) {
 	r := s.Declare(v)
 	if v.Sort != SInt {
 		return
@@ -134,13 +134,21 @@ func (s *Solver) AssertRange(v *Term) {
 	}
 }
 
-func (s *Solver) readLine() (string, error) {
+func (s *proc) readLine() (string, error) {
 	line, err := s.out.ReadString('\n')
 	return strings.TrimSpace(line), err
 }
 
+func (s *proc) setTimeout(ms int) {
+	if s.kind == "cvc5" {
+		s.send(fmt.Sprintf("(set-option :tlimit-per %d)\n", ms))
+	} else {
+		s.send(fmt.Sprintf("(set-option :timeout %d)\n", ms))
+	}
+}
+
 // Check runs check-sat at the current level. Any "(error" output makes the result Unknown.
-func (s *Solver) Check() Result {
+func (s *proc) Check() Result {
 	if s.dead {
 		return Unknown
 	}
@@ -180,24 +188,16 @@ func (s *Solver) Check() Result {
 	}
 	s.Queries++
 	s.Millis += time.Since(start).Milliseconds()
+	if s.Log != nil {
+		fmt.Fprintf(s.Log, "; RESULT %s in %d ms\n", res, time.Since(start).Milliseconds())
+	}
 	s.ByRes[res]++
 	return res
 }
 
-// CheckAssuming: push, assert extra, check, pop.
-func (s *Solver) CheckWith(extra ...*Term) Result {
-	s.Push()
-	for _, e := range extra {
-		s.Assert(e)
-	}
-	r := s.Check()
-	s.Pop()
-	return r
-}
-
 // Model reads the values of the given variables after a Sat result (must be called before pop).
 // Int -> *big.Int, Bool -> bool, FP -> string (raw).
-func (s *Solver) Model(vars []*Term) (map[string]interface{}, error) {
+func (s *proc) Model(vars []*Term) (map[string]interface{}, error) {
 	m := map[string]interface{}{}
 	for _, v := range vars {
 		r := s.Declare(v)
@@ -254,4 +254,140 @@ func parseIntLit(s string) (*big.Int, bool) {
 		v.Neg(v)
 	}
 	return v, true
+}
+
+// Solver is a small portfolio: every command is mirrored to all member processes; a check is
+// tried on each member with escalating time limits until one gives a definite answer.
+// (Measured here: the same non-linear query is decided in 2 s by z3 4.8.12 and not in 20 s by
+// z3 5.1, and the other way round on others.)
+type Solver struct {
+	Name    string
+	procs   []*proc
+	lastSat int
+	Queries int
+	Millis  int64
+	ByRes   [3]int
+	ByProc  map[string]int
+	full    int
+}
+
+// NewSolver: kind is a '+'-separated list, e.g. "z3-new+z3".
+func NewSolver(kind string, timeoutMs int) (*Solver, error) {
+	s := &Solver{Name: kind, full: timeoutMs, ByProc: map[string]int{}}
+	for _, k := range strings.Split(kind, "+") {
+		p, err := newProc(k, timeoutMs)
+		if err != nil {
+			s.Close()
+			return nil, err
+		}
+		s.procs = append(s.procs, p)
+	}
+	return s, nil
+}
+
+func (s *Solver) Close() {
+	if s == nil {
+		return
+	}
+	for _, p := range s.procs {
+		p.Close()
+	}
+}
+func (s *Solver) Push() {
+	for _, p := range s.procs {
+		p.Push()
+	}
+}
+func (s *Solver) Pop() {
+	for _, p := range s.procs {
+		p.Pop()
+	}
+}
+func (s *Solver) Assert(t *Term) {
+	for _, p := range s.procs {
+		p.Assert(t)
+	}
+}
+func (s *Solver) AssertRange(t *Term) {
+	for _, p := range s.procs {
+		p.AssertRange(t)
+	}
+}
+func (s *Solver) Declare(t *Term) {
+	for _, p := range s.procs {
+		p.Declare(t)
+	}
+}
+
+// check with a schedule of (member, limit) attempts.
+func (s *Solver) check(light bool) Result {
+	start := time.Now()
+	type att struct {
+		i  int
+		ms int
+	}
+	var sched []att
+	short := 1500
+	if short > s.full {
+		short = s.full
+	}
+	for i := range s.procs {
+		sched = append(sched, att{i, short})
+	}
+	if !light || len(s.procs) == 1 {
+		mid := s.full / 4
+		if light {
+			mid = 4000
+			if mid > s.full {
+				mid = s.full
+			}
+		}
+		if mid > short {
+			for i := range s.procs {
+				sched = append(sched, att{i, mid})
+			}
+		}
+		if !light && s.full > mid {
+			for i := range s.procs {
+				sched = append(sched, att{i, s.full})
+			}
+		}
+	}
+	res := Unknown
+	for _, a := range sched {
+		p := s.procs[a.i]
+		if p.dead {
+			continue
+		}
+		p.setTimeout(a.ms)
+		r := p.Check()
+		if r != Unknown {
+			res = r
+			s.lastSat = a.i
+			s.ByProc[p.Name]++
+			break
+		}
+	}
+	s.Queries++
+	s.Millis += time.Since(start).Milliseconds()
+	s.ByRes[res]++
+	return res
+}
+
+func (s *Solver) Check() Result { return s.check(false) }
+
+// CheckWith: push, assert extra, check, pop. Feasibility checks use the light schedule
+// (an unknown answer keeps the branch, which is sound).
+func (s *Solver) CheckWith(extra ...*Term) Result {
+	s.Push()
+	for _, e := range extra {
+		s.Assert(e)
+	}
+	r := s.check(true)
+	s.Pop()
+	return r
+}
+
+func (s *Solver) Model(vars []*Term) (map[string]interface{}, error) {
+	return s.procs[s.lastSat].Model(vars)
 }
